@@ -8,6 +8,8 @@ RULE = ("TLC enumerates every (driver form, body, len, len2, window) of Window.t
 def run(ctx):
     cfg = "MCWindow.cfg" if ctx.quick else "MCWindow_thorough.cfg"
     r = ctx.tlc("window", "MCWindow", cfg, workers=8, timeout=600)
+    # the same index arithmetic for every length and window (TLA+ proof system; see C10)
+    ctx.tlaps("window-proof", "WindowProof", needs=("WindowIdx",))
     binp = ctx.build("tvh-roll")
     args = ["replay-window", "--only", "ok", "--in", r["emitted"]]
     if not ctx.quick:
